@@ -4,6 +4,7 @@ import (
 	"fmt"
 	"reflect"
 	"regexp"
+	"strconv"
 )
 
 // String holds schema information for strings. This dataclass only has the ability to hold the configuration but
@@ -208,9 +209,11 @@ func stringInputMapper(data any) (string, error) {
 	case uint8:
 		return fmt.Sprintf("%d", v), nil
 	case float64:
-		return fmt.Sprintf("%f", v), nil
+		// The shortest decimal text that reads back as the same number; a fixed number of decimals ("%f") would
+		// change the value (1e-7 becomes "0.000000") and pad it ("1.500000").
+		return strconv.FormatFloat(v, 'f', -1, 64), nil
 	case float32:
-		return fmt.Sprintf("%f", v), nil
+		return strconv.FormatFloat(float64(v), 'f', -1, 32), nil
 	default:
 		return "", fmt.Errorf("%T cannot be converted to a string", data)
 	}
